@@ -5,16 +5,22 @@ from lib.prop import Prop
 
 class C05(Prop):
     pid = "C05"
-    lean_targets = ["M17.Props.C05"]
+    lean_targets = ["M17.Props.C05", "M17.Props.C05S"]
     theorems = ["M17.C05.crcOf_is_m17_crc", "M17.C05.lsf_callback_crc_valid_step", "M17.C05.lsf_callback_crc_valid",
                 "M17.C05.stale_mask_harmless", "M17.C05.slot_setSlot", "M17.C05.setSlot_completes", "M17.C05.out_of_range_inert",
-                "M17.C05.lich_reassembly_exact", "M17.C05.lich_incomplete", "M17.C05.unpack_lich_correct"]
+                "M17.C05.lich_reassembly_exact", "M17.C05.lich_incomplete", "M17.C05.unpack_lich_correct",
+                "M17.C05S.mask_ok", "M17.C05S.step_fragment", "M17.C05S.run_incomplete", "M17.C05S.late_entry"]
     level_text = ("Lean 4 theorems about the modelled decoder: for EVERY history of frames and every initial state (also one left by reset() "
                   "with a stale LICH mask) each link-setup callback carries 30 bytes whose M17 CRC-16 is zero (both emission sites are guarded; "
                   "the check value is the M17 CRC by C09); storing a fragment changes exactly its slot; when the six held slots equal an LSF with "
                   "valid CRC that LSF is reported bit-exact in that very step (OK, stream mode, collection cleared), otherwise only the fragment "
                   "is reported; fragment numbers 6/7 leave state untouched; four Golay words with up to three errors each (parity bit included, "
-                  "via C04) unpack to the transmitted six bytes. C++ decoder compared with the model on fragment histories of two interleaved "
+                  "via C04) unpack to the transmitted six bytes. Composition over whole received frames (M17.Props.C05S, using C01F.lich_roundtrip): "
+                  "late_entry — from a decoder waiting for link setup with nothing collected, after ANY sequence of clean specification-encoded "
+                  "stream frames of one transmission (fragments in any order, any repetitions, any payloads, soft magnitudes 1..7) that leaves one "
+                  "position missing, the frame carrying that position reports the LSF bit-exact, returns OK, clears the collection and enters "
+                  "stream mode; run_incomplete — until then the collected state is exactly the positions seen and only LICH callbacks occur "
+                  "(induction over the frame list; mask arithmetic by kernel evaluation of all 256x6 cases). C++ decoder compared with the model on fragment histories of two interleaved "
                   "LSFs with 0-4 errors per Golay word, out-of-range numbers, LSF-sync frames valid/corrupt/near-miss CRC, garbage; independent "
                   "python tracker predicts when a report must happen.")
     design_ref = "DESIGN.md §5 C05"
